@@ -114,7 +114,7 @@ def assess_one(ctx, space, node, comp, args, asg, ret, R, pool, feats, nontrivia
     switchy = bool({"switch", "or_else", "mix"} & node.kinds())
     masky = "mask" in node.kinds()
     ctx.ev(k, nontrivial=(len(asg) > 0) if nontrivial is None else nontrivial)
-    ic = "assess" + "".join(":" + f for f in sorted(feats & {"zero_length", "mask_concrete_false"}))
+    ic = "assess" + "".join(":" + f for f in sorted(feats & {"zero_length", "mask_concrete_false", "switch_concrete_idx"}))
     out = None
     try:
         out = space.assess(args, asg)
